@@ -2,6 +2,7 @@ package main
 
 import (
 	"fmt"
+	"strings"
 
 	"verifharness/internal/gen"
 )
@@ -29,7 +30,24 @@ func genBody(r *gen.Rand, idx, n int) string {
 	return string(b)
 }
 
-func genOp(r *gen.Rand, c cfgIn, keys []string, idx int, w *gen.Writer) opIn {
+// genFaults: outcomes of up to n consecutive storage calls, mostly ok; entry: the first call is the Get of the
+// entry, which may also return a value that does not decode
+func genFaults(r *gen.Rand, n int, entry bool) string {
+	b := make([]byte, n)
+	for i := range b {
+		switch {
+		case r.Chance(1, 4):
+			b[i] = 'e'
+		case entry && i == 0 && r.Chance(1, 3):
+			b[i] = 'g'
+		default:
+			b[i] = 'o'
+		}
+	}
+	return strings.TrimRight(string(b), "o")
+}
+
+func genOp(r *gen.Rand, c cfgIn, keys []string, idx int, w *gen.Writer, flt int) opIn {
 	o := opIn{expGen: -1}
 	o.method = gen.Pick(r, []string{"GET", "GET", "GET", "GET", "GET", "HEAD", "POST", "PUT"})
 	o.keyMat = gen.Pick(r, keys)
@@ -106,6 +124,26 @@ func genOp(r *gen.Rand, c cfgIn, keys []string, idx int, w *gen.Writer) opIn {
 		}
 		w.Count("handler-error")
 	}
+	if flt == 2 {
+		// only the Get of the entry fails (error / undecodable value): no Set or Delete ever fails in this history,
+		// so every clause of the sentence applies in full; aimed at invalidating requests (blank item + invalidation)
+		if (o.inv && r.Chance(2, 3)) || r.Chance(1, 4) {
+			o.f1 = gen.Pick(r, []string{"e", "g"})
+			w.Count("op-faults-get-only")
+		}
+	}
+	if flt == 1 && r.Chance(1, 2) {
+		// storage faults: first section = Get(entry), then Delete×2 (expiry / invalidation) or Get(body) (hit);
+		// second section = Delete×2 per eviction, then Set(body), Set(entry)
+		o.f1 = genFaults(r, 3, true)
+		o.f2 = genFaults(r, 2+2*r.Intn(3), false)
+		if o.f1 != "" {
+			w.Count("op-faults-sec1")
+		}
+		if o.f2 != "" {
+			w.Count("op-faults-sec2")
+		}
+	}
 	return o
 }
 
@@ -141,6 +179,17 @@ func genCase(r *gen.Rand, w *gen.Writer, tier string) (cfgIn, []opIn, map[int][]
 	case 2:
 		c.methods = []string{"HEAD", "POST", "GET"}
 	}
+	// a third of the histories with an injected storage have a storage that fails now and then
+	flt := 0
+	if c.ext && r.Chance(1, 3) {
+		flt = 1
+		if r.Chance(1, 3) {
+			flt = 2
+			w.Count("cases-with-get-faults-only")
+		} else {
+			w.Count("cases-with-storage-faults")
+		}
+	}
 	nk := 1 + r.Intn(4)
 	pool := []string{"/a", "/b", "/c", "/a_GET", "/d/e", "/a_GET_body"}
 	if c.kg {
@@ -165,7 +214,7 @@ func genCase(r *gen.Rand, w *gen.Writer, tier string) (cfgIn, []opIn, map[int][]
 				if r.Chance(3, 4) {
 					ks = []string{k}
 				}
-				o := genOp(r, c, ks, len(ops), w)
+				o := genOp(r, c, ks, len(ops), w, flt)
 				o.grp, o.hdelay = grp, 0
 				if t > 0 {
 					o.dt = 0
@@ -210,7 +259,7 @@ func genCase(r *gen.Rand, w *gen.Writer, tier string) (cfgIn, []opIn, map[int][]
 			w.Count(fmt.Sprintf("group-size-%d", m))
 			continue
 		}
-		ops = append(ops, genOp(r, c, keys, len(ops), w))
+		ops = append(ops, genOp(r, c, keys, len(ops), w, flt))
 	}
 	if conc {
 		w.Count("cases-concurrent")
